@@ -29,7 +29,12 @@ assert r.returncode == 0, r.stdout
 out = {'seed_id': a.seed_id, 'property': a.prop, 'repo_head': sh('git -C /repo rev-parse --short HEAD').stdout.strip()}
 try:
     demos = sorted(glob.glob(os.path.join(a.src, 'demo*.py')) + glob.glob(os.path.join(a.src, 'test_demo*.py')))
-    demo = demos[0]
+    # run the demonstration from inside the scratch worktree (some demos locate the sources relative to their own path)
+    inwt = os.path.join(wt, '_seeded', 'x')
+    os.makedirs(inwt, exist_ok=True)
+    for d in demos:
+        shutil.copy(d, inwt)
+    demo = os.path.join(inwt, os.path.basename(demos[0]))
     def run_demo():
         if os.path.basename(demo).startswith('test_'):
             c = 'cd %s && /venv/bin/python -m pytest -q -p no:cacheprovider %s' % (wt, demo)
@@ -70,6 +75,15 @@ try:
             meta = json.load(open(mp))
         except Exception:
             meta = {'raw': open(mp).read()}
+    prev = {}
+    if os.path.exists(os.path.join(dst, 'meta.json')):
+        try:
+            prev = json.load(open(os.path.join(dst, 'meta.json'))).get('confirmed_by_lead', {})
+        except Exception:
+            prev = {}
+    for k in ('tests_cmd', 'tests_tail', 'tests_wall_s'):
+        if k not in out and k in prev:
+            out[k] = prev[k]
     meta['confirmed_by_lead'] = out
     json.dump(meta, open(os.path.join(dst, 'meta.json'), 'w'), indent=1)
     print(json.dumps(out, indent=1)[:3000])
